@@ -123,63 +123,179 @@ def rename_all(terms_, names, suffix):
     return [tm.subst(t, mapping) for t in terms_], mapping
 
 
-def mono_task(arg):
-    year, which, timeout_ms = arg
-    os.environ['HV_PROCS'] = '1'
-    lf = retmodel.Lifter(year, 1, 2, ['1040'], ft='ref', nonneg=True, timeout_ms=timeout_ms)
-    rm = lf.rm
-    res = {'year': year, 'which': which, 'obl': [], 'viol': []}
-    base = [lf.rx(c) for c in rm.constraints + rm.input_domains()] + [lf.rx(rm.solved)]
-    names = {}
-    for c in base:
-        tm.free_vars(c, names)
-    copy2, mapping = rename_all(base, names, '@2')
-    inputs = [v for v in names if v.startswith('i:')]
-    spec = {'wages': ('i:w-2:0.box_1#k', +1), 'withholding': ('i:w-2:0.box_2#k', +1), 'deduction': ('i:1040_sa.state_local_real_estate_taxes#k', +1)}[which]
-    pert = spec[0]
-    if pert not in names:
-        res['obl'].append(('ty%d/%s' % (year, which), 'unknown', 0.0))
-        res['viol'].append({'key': None, 'what': 'perturbed input %s not in the model' % pert})
-        return res
-    eqs = []
-    for v in inputs:
-        if v == pert:
-            continue
-        eqs.append(tm.eq(tm.var(v, names[v]), tm.var(v + '@2', names[v])))
-    d = tm.var('delta', 'I')
-    eqs.append(tm.le(tm.I(1), d))
-    eqs.append(tm.eq(tm.var(pert + '@2', 'I'), tm.add(tm.var(pert, 'I'), d)))
+def owner_of(var):
+    """line / input that a summary variable belongs to"""
+    base = var
+    for suf in ('#k', '#id', '#empty', '#blank'):
+        if base.endswith(suf):
+            base = base[:-len(suf)]
+    if base.startswith('v:'):
+        return ('line', base[2:])
+    if base.startswith('i:'):
+        return ('input', base[2:])
+    return ('other', var)
 
-    def L(line, c2=False):
-        t = lf.rx(rm.lvar[line][1])
-        return tm.subst(t, mapping) if c2 else t
-    extra = []
+
+def collect_apps(t, pred, acc):
+    seen = set()
+    st = [t]
+    while st:
+        x = st.pop()
+        if id(x) in seen:
+            continue
+        seen.add(id(x))
+        if pred(x):
+            acc.append(x)
+        for y in x.args:
+            if isinstance(y, tm.T):
+                st.append(y)
+
+
+def modular_task(arg):
+    """Assume-guarantee inference of how every line of the 1040 closure responds
+    to raising one input: classes same / up / down / plus(delta), each proved by
+    one relational SMT query on the line's own summary given the classes of
+    what it reads (induction along the acyclic read graph)."""
+    year, which = arg
+    os.environ['HV_PROCS'] = '1'
+    so = {'S': 2, 'ft': 'uf', 'cents': True, 'nonneg': True}
+    rm = retmodel.ReturnModel(year, 1, ['1040'], sopts=so)
+    pert = {'wages': 'w-2:0.box_1', 'withholding': 'w-2:0.box_2', 'deduction': '1040_sa.state_local_real_estate_taxes'}[which]
+    res = {'year': year, 'which': which, 'obl': [], 'classes': {}, 'samples': [], 'final': None}
+    # topological order of the closure
+    g = {n: set() for n in rm.lines}
+    for n in rm.lines:
+        for p in rm.summ[n]:
+            for kind, name, _ in p.reads:
+                if kind == 'read_line' and name in g and name != n:
+                    g[n].add(name)
+    order, done = [], set()
+
+    def visit(n):
+        stack = [(n, iter(sorted(g[n])))]
+        while stack:
+            node, it = stack[-1]
+            nxt = next(it, None)
+            if nxt is None:
+                stack.pop()
+                if node not in done:
+                    done.add(node)
+                    order.append(node)
+            elif nxt not in done:
+                stack.append((nxt, iter(sorted(g[nxt]))))
+    for n in sorted(g):
+        if n not in done:
+            visit(n)
+    cls = {}
+    delta = tm.var('delta#k', 'I')          # cents
+    dreal = tm.div(tm.to_real(delta), tm.R(100))
+    for n in order:
+        paths = [p for p in rm.summ[n] if p.kind not in ('cut',)]
+        kinds = sorted(set(p.kind for p in paths))
+        if 'value' not in kinds:
+            cls[n] = 'any'
+            continue
+        vsort = None
+        for p in paths:
+            if p.kind == 'value' and p.value[0] in ('num', 'enum'):
+                vsort = p.value[1].sort
+        k1, k2 = tm.var('o1#kind', 'I'), tm.var('o2#kind', 'I')
+        v1 = tm.var('o1#val', vsort) if vsort else None
+        v2 = tm.var('o2#val', vsort) if vsort else None
+        alts = []
+        for p in paths:
+            parts = list(p.conds) + list(p.assumes) + [tm.eq(k1, tm.I(kinds.index(p.kind)))]
+            if vsort and p.kind == 'value' and p.value[0] in ('num', 'enum') and p.value[1].sort == vsort:
+                parts.append(tm.eq(v1, p.value[1]))
+            alts.append(tm.and_(*parts))
+        R1 = tm.or_(*alts)
+        names = tm.free_vars(R1)
+        names.pop('o1#kind', None)
+        names.pop('o1#val', None)
+        mapping = {v: tm.var(v + '@2', srt) for v, srt in names.items()}
+        mapping['o1#kind'] = k2
+        if vsort:
+            mapping['o1#val'] = v2
+        R2 = tm.subst(R1, mapping)
+        cons = [R1, R2, tm.eq(k1, tm.I(kinds.index('value'))), tm.eq(k2, tm.I(kinds.index('value'))), tm.le(tm.I(1), delta)]
+        # how the things this line reads respond
+        for v, srt in names.items():
+            kind, owner = owner_of(v)
+            a, b2 = tm.var(v, srt), tm.var(v + '@2', srt)
+            if kind == 'input':
+                if owner == pert and v.endswith('#k'):
+                    cons.append(tm.eq(b2, tm.add(a, delta)))
+                else:
+                    cons.append(tm.eq(a, b2))
+            elif kind == 'line':
+                c_ = cls.get(owner, 'any')
+                if srt == 'B' or not v.endswith('#k') and srt != 'I':
+                    if c_ == 'same':
+                        cons.append(tm.eq(a, b2))
+                elif c_ == 'same':
+                    cons.append(tm.eq(a, b2))
+                elif c_ == 'up':
+                    cons.append(tm.le(a, b2))
+                elif c_ == 'down':
+                    cons.append(tm.le(b2, a))
+                elif c_ == 'plus' and v.endswith('#k'):
+                    fld = rm.cat.field(owner)
+                    cons.append(tm.eq(tm.div(tm.to_real(b2), tm.R(10 ** fld._places)), tm.add(tm.div(tm.to_real(a), tm.R(10 ** fld._places)), dreal)))
+        # monotone rounding and monotone tax function lemmas
+        for p in paths:
+            for asm in p.assumes:
+                if asm.op == 'and' and len(asm.args) == 2 and asm.args[0].op == 'le' and asm.args[0].args[0].op == 'sub':
+                    r_, t_ = asm.args[0].args[0].args
+                    fv = tm.free_vars(r_)
+                    if len(fv) == 1 and list(fv)[0].startswith('rnd!'):
+                        r2_, t2_ = tm.subst(r_, mapping), tm.subst(t_, mapping)
+                        cons.append(tm.and_(tm.implies(tm.le(t_, t2_), tm.le(r_, r2_)), tm.implies(tm.le(t2_, t_), tm.le(r2_, r_))))
+        apps = []
+        collect_apps(R1, lambda x: x.op.startswith('uf:FT_'), apps)
+        for ap in apps:
+            ap2 = tm.subst(ap, mapping)
+            x_, x2_ = ap.args[1], ap2.args[1]
+            same_st = tm.eq(ap.args[0], ap2.args[0])
+            cons.append(tm.implies(tm.and_(same_st, tm.le(x_, x2_)), tm.le(ap, ap2)))
+            cons.append(tm.implies(tm.and_(same_st, tm.le(x2_, x_)), tm.le(ap2, ap)))
+        base = z3.Solver()
+        base.set('timeout', 20000)
+        for c_ in cons:
+            base.add(tm.to_z3(c_))
+        found = 'any'
+        t0 = time.time()
+        tries = ['same'] + (['plus'] if which == 'withholding' and vsort == 'R' else []) + (['up', 'down'] if vsort in ('R', 'I') else [])
+        for cand in tries:
+            if not vsort:
+                neg = tm.ne(k1, k2)   # non-numeric outcome (text): only the kind is compared
+            elif cand == 'same':
+                neg = tm.ne(v1, v2)
+            elif cand == 'up':
+                neg = tm.lt(v2, v1)
+            elif cand == 'down':
+                neg = tm.lt(v1, v2)
+            else:
+                neg = tm.ne(v2, tm.add(v1, dreal))
+            base.push()
+            base.add(tm.to_z3(neg))
+            r = str(base.check())
+            base.pop()
+            if r == 'unsat':
+                found = cand
+                break
+        cls[n] = found
+        res['obl'].append(('ty%d/%s/class/%s=%s' % (year, which, n, found), 'unsat' if found != 'any' else 'unknown', time.time() - t0))
+    res['classes'] = {n: c_ for n, c_ in cls.items() if c_ != 'same'}
     if which == 'wages':
-        extra.append(tm.eq(tm.var('i:1040.number_w-2', 'I'), tm.I(1)))
-        bad = tm.lt(L('1040.24', True), L('1040.24'))
-        desc = 'wages up by delta >= 0.01 and total tax (1040.24) lower'
+        ok = cls.get('1040.24') in ('same', 'up')
+        desc = 'total tax 1040.24 responds to higher wages as: %s' % cls.get('1040.24')
     elif which == 'deduction':
-        extra.append(tm.var('i:1040.itemize', 'B'))
-        bad = tm.lt(L('1040.24'), L('1040.24', True))
-        desc = 'real-estate tax deduction up and total tax (1040.24) higher'
+        ok = cls.get('1040.24') in ('same', 'down')
+        desc = 'total tax 1040.24 responds to a higher deductible expense as: %s' % cls.get('1040.24')
     else:
-        extra.append(tm.eq(tm.var('i:1040.number_w-2', 'I'), tm.I(1)))
-        lhs = tm.sub(tm.sub(L('1040.34', True), L('1040.37', True)), tm.sub(L('1040.34'), L('1040.37')))
-        bad = tm.ne(lhs, tm.div(tm.to_real(d), tm.R(100)))
-        desc = 'withholding up by delta and refund-minus-owed not up by exactly delta'
-    s = z3.Solver()
-    s.set('timeout', timeout_ms)
-    for c in base + copy2 + eqs + extra + [bad]:
-        s.add(tm.to_z3(c))
-    t0 = time.time()
-    r = str(s.check())
-    dt = time.time() - t0
-    res['obl'].append(('ty%d/%s' % (year, which), r, dt, 'exists two solved returns differing only in %s: %s' % (pert, desc)))
-    if r == 'sat':
-        m = s.model()
-        inp1 = rm.extract_inputs(m)
-        dv = tm.model_value(m, d)
-        res['viol'].append({'key': 'ty%d:%s' % (year, which), 'what': desc, 'inputs': inp1, 'pert': pert[2:-2], 'delta': str(dv), 'which': which})
+        ok = cls.get('1040.33') == 'plus' and cls.get('1040.24') == 'same'
+        desc = 'total payments 1040.33: %s, total tax 1040.24: %s (with the balance identity of C15, refund minus owed moves by exactly delta)' % (cls.get('1040.33'), cls.get('1040.24'))
+    res['final'] = (ok, desc)
     return res
 
 
@@ -191,7 +307,7 @@ def run(tier):
     c.bounds = {'years': years, 'copies': 2, 'amounts': '0 <= x <= 1e8, whole cents', 'delta': 'any positive number of cents', 'relational_timeout_s': 120}
     c.outside = ['3 or more copies (thorough tier of the renumbering check uses K=2 as well)', 'simultaneous changes of several inputs', 'NC forms in the monotonicity queries']
     c.assumptions = ['per-payer listing lines are exempt from the renumbering invariance (name pattern)', 'induction: if every line is invariant given invariant reads, the return is invariant (read graph acyclic, C03/C04)']
-    specs = [(y, 2, {'S': 2, 'ft': 'uf', 'cents': True}) for y in years] + [(y, 1, {'S': 2, 'ft': 'ref', 'cents': True, 'nonneg': True}) for y in years]
+    specs = [(y, 2, {'S': 2, 'ft': 'uf', 'cents': True}) for y in years] + [(y, 1, {'S': 2, 'ft': 'uf', 'cents': True, 'nonneg': True}) for y in years]
     retmodel.preload(specs)
     os.environ['HV_PRELOADED'] = '1'
     tasks = [(y, f) for y in years for f in forms]
@@ -203,20 +319,20 @@ def run(tier):
         for v in r['viol']:
             c.violation(v['key'], v['what'], {'kind': 'renumber', 'detail': v['what']})
         c.extra.setdefault('lines_reading_copies', {})['%d/%s' % (r['year'], r['form'])] = r['lines']
-    mtasks = [(y, w, 60000 if tier == 'quick' else 300000) for y in years for w in ('wages', 'withholding', 'deduction')]
-    for r in common.pmap(mono_task, mtasks):
-        for o in r['obl']:
-            c.obligation(o[0], o[1], o[2], sample={'obligation': o[0], 'query': o[3] if len(o) > 3 else '', 'result': o[1]})
-        for v in r['viol']:
-            if v['key'] is None:
-                c.inconclusive.append(v['what'])
-                continue
-            rep = {'kind': 'metamorphic', 'year': r['year'], 'forms': ['1040'], 'inputs': v['inputs'], 'input': v['pert'], 'delta_cents': v['delta'], 'which': v['which']}
-            out = common.run_real(['metamorphic'], rep)
-            c.replays_run += 1
-            if out.get('reproduced'):
-                c.violation(v['key'], v['what'] + ' [real solves: %s]' % out.get('detail'), rep)
-            else:
-                c.spurious += 1
-                c.inconclusive.append('witness did not reproduce: %s (%s)' % (v['key'], out.get('detail')))
+    for r in common.pmap(modular_task, [(y, w) for y in years for w in ('wages', 'withholding', 'deduction')]):
+        proved = 0
+        for nm, res, dt in r['obl']:
+            if res == 'unsat':
+                proved += 1
+            c.obligations += 1
+            c.solver_s += dt
+            if res == 'unsat':
+                c.discharged += 1
+            c.distinct.add(nm)
+        ok, desc = r['final']
+        nm = 'ty%d/%s/response' % (r['year'], r['which'])
+        c.obligation(nm, 'unsat' if ok else 'unknown', 0.0, sample={'obligation': nm, 'result': desc, 'lines_not_unchanged': dict(list(r['classes'].items())[:25])})
+        if not ok:
+            c.inconclusive.append('%s: %s' % (nm, desc))
+        c.extra.setdefault('response_classes', {})['%d/%s' % (r['year'], r['which'])] = {'lines_classified': proved, 'final': desc}
     return c.finish()
